@@ -638,6 +638,30 @@ fn handle(line: &str) -> String {
             }
             if bad.is_empty() { "same".to_string() } else { format!("differs: {}", bad.join(",")) }
         }
+        "built_checks" => {
+            // <size,size,...>: build, then verify_digests and offsets vs written bytes
+            let sizes: Vec<usize> = if p[1] == "-" { vec![] } else { p[1].split(',').filter_map(|x| x.parse().ok()).collect() };
+            let dir = std::env::temp_dir().join(format!("rpm-native-replay-bc-{}", std::process::id()));
+            let _ = std::fs::create_dir_all(&dir);
+            let mut b = rpm::PackageBuilder::new("n", "1", "MIT", "noarch", "s").compression(rpm::CompressionType::None);
+            for (i, n) in sizes.iter().enumerate() {
+                let f = dir.join(format!("f{}", i));
+                std::fs::write(&f, vec![7u8; *n]).unwrap();
+                b = b.with_file(&f, rpm::FileOptions::new(format!("/d/f{}", i))).unwrap();
+            }
+            let pkg = b.build();
+            let _ = std::fs::remove_dir_all(&dir);
+            let pkg = match pkg { Ok(p) => p, Err(e) => return format!("build-err {:?}", e).replace(' ', "_") };
+            let mut bad: Vec<String> = Vec::new();
+            if pkg.verify_digests().is_err() { bad.push("verify_digests".into()); }
+            let o = pkg.metadata.get_package_segment_offsets();
+            let mut out = Vec::new();
+            pkg.write(&mut out).unwrap();
+            let m = [0x8e, 0xad, 0xe8, 0x01];
+            let (s, h, pl) = (o.signature_header as usize, o.header as usize, o.payload as usize);
+            if !(o.lead == 0 && s == 96 && out.get(s..s + 4) == Some(&m[..]) && out.get(h..h + 4) == Some(&m[..]) && out.len() == pl + pkg.content.len()) { bad.push("offsets".into()); }
+            if bad.is_empty() { "same".to_string() } else { format!("differs: {}", bad.join(",")) }
+        }
         "wsink" => {
             // <k> <fail_at> <intr_at> <package|metadata>: write a freshly built package into a scripted sink; every failure position is tried
             let k: usize = p[1].parse().unwrap_or(0);
